@@ -116,7 +116,7 @@ class ShardRun:
         cmd = [self.binary] + self.args + ["--shard", str(i), "--nshards", str(self.nshards), "--start", str(start),
                                            "--out", base]
         err = open(base + ".stderr", "ab")
-        p = subprocess.Popen(cmd, stdout=subprocess.DEVNULL, stderr=err, env=self.env, cwd=self.workdir)
+        p = subprocess.Popen(cmd, stdout=subprocess.DEVNULL, stderr=err, env=self.env, cwd=self.workdir, start_new_session=True)
         err.close()
         return p
 
@@ -141,7 +141,7 @@ class ShardRun:
                 pass
         cmd = [self.binary] + self.args + ["--only", str(idx), "--out", base]
         err = open(base + ".stderr", "wb")
-        p = subprocess.Popen(cmd, stdout=subprocess.DEVNULL, stderr=err, env=self.env, cwd=self.workdir)
+        p = subprocess.Popen(cmd, stdout=subprocess.DEVNULL, stderr=err, env=self.env, cwd=self.workdir, start_new_session=True)
         err.close()
         t0 = time.time()
         status = None
@@ -154,11 +154,10 @@ class ShardRun:
                 dl = logical_deadlock(p.pid)
                 ticks, _ = _cpu_ticks(p.pid)
                 cpu_s = (ticks or 0) / float(os.sysconf("SC_CLK_TCK"))
-                # CPU time, not wall-clock: a case that needs milliseconds and has burnt most of a generous budget in
-                # CPU is looping, whatever the machine load
-                status = "deadlock" if dl else ("cpu-loop" if cpu_s >= 0.7 * timeout else "timeout")
-                p.kill()
-                p.wait()
+                # CPU time, not wall-clock: a case that needs milliseconds and has burnt a quarter of a generous budget in
+                # CPU (it gets at least that share even on an oversubscribed machine) is looping
+                status = "deadlock" if dl else ("cpu-loop" if cpu_s >= 0.25 * timeout else "timeout")
+                kill_group(p)
                 rc = None
                 break
             time.sleep(0.05)
@@ -177,8 +176,7 @@ class ShardRun:
             if self.restarts >= self.max_failures:
                 # enough witnesses: stop instead of grinding through a tree that violates everywhere
                 for p in procs.values():
-                    p.kill()
-                    p.wait()
+                    kill_group(p)
                 self.aborted_early = True
                 break
             for i in list(procs):
@@ -191,8 +189,7 @@ class ShardRun:
                         last[i] = (idx, now)
                     elif now - last[i][1] > self.stall_s:
                         dl = logical_deadlock(p.pid)
-                        p.kill()
-                        p.wait()
+                        kill_group(p)
                         self._handle_fail(i, idx, desc, "deadlock" if dl else "stall", None)
                         if idx is None:
                             del procs[i]
@@ -271,6 +268,19 @@ class ShardRun:
             rec["kind"] = "crash"
             rec["key"] = classify_stderr(alone["stderr"]) or _sig(alone["rc"]) or "exit%s" % alone["rc"]
         self.crashes.append(rec)
+
+
+def kill_group(p):
+    """Kills a shard together with every child it forked (per-case children would otherwise survive and spin)."""
+    try:
+        os.killpg(p.pid, signal.SIGKILL)
+    except (OSError, ProcessLookupError):
+        pass
+    try:
+        p.kill()
+    except OSError:
+        pass
+    p.wait()
 
 
 def _sig(rc):
